@@ -1,6 +1,6 @@
 """C07 Protocol secrets come from, and depend on, each party's own randomness.
 
-G: Provenance.tla (TLC): symbolic two-run model of a round-based protocol (messages and the joint output are injective functions of
+G: Provenance.tla + ProvenanceSrc.tla (TLC): symbolic two-run model of a round-based protocol (messages and the joint output are injective functions of
    consumed stream prefixes and received messages): others' first-round messages equal, the altered party's messages differ from its
    first randomised round on, joint output differs, no influence before the randomness can have travelled.
 R: harness/cmd/tworun: every toy-capable protocol (session, HJKY, redistribution with/without anchor, Gennaro, Canetti, Lindell22) run
@@ -22,6 +22,10 @@ def run(chk):
         jobs = [("s%d" % i, ["-n", "25", "-seed", str(chk.seed * 100 + i)]) for i in range(8)] + [("b31", ["-n", "10", "-bits", "31", "-seed", str(chk.seed)])]
     tasks = [("mc:r1", lambda: vlib.tlc(SPEC, "ProvenanceMC", "ProvenanceMC_r1.cfg", workers=2, timeout=600)),
              ("mc:r2", lambda: vlib.tlc(SPEC, "ProvenanceMC", "ProvenanceMC_r2.cfg", workers=2, timeout=600))]
+    # the relation the trace specification demands characterises "drawn from the party's own reader" (every source assignment)
+    srcs = ["ProvenanceSrc_q.cfg"] if chk.quick else ["ProvenanceSrc_q.cfg", "ProvenanceSrc_r2.cfg", "ProvenanceSrc_r3.cfg"]
+    for c in srcs:
+        tasks.append(("mc:" + c, (lambda c=c: vlib.tlc(SPEC, "ProvenanceSrc", c, workers=3, timeout=1500))))
     stats = {"cmp": 0, "by": {}}
 
     def job(tag, args):
@@ -42,7 +46,7 @@ def run(chk):
     for tag, args in jobs:
         tasks.append(("j:" + tag, job(tag, args)))
     res = vlib.parallel(tasks, max_workers=6)
-    for n in ("mc:r1", "mc:r2"):
+    for n in ["mc:r1", "mc:r2"] + ["mc:" + c for c in srcs]:
         chk.add_mc("Provenance/" + n, res[n])
         if res[n].violation:
             chk.violation("model:" + res[n].violation, "Provenance.tla violates %s" % res[n].violation, {"cex": res[n].cex})
